@@ -84,8 +84,11 @@ func genNamePool(t *rapid.T, n int) []string {
 		} else {
 			name = genTestName(t)
 		}
-		if !seen[name] {
+		// distinct also after the standalone file-name mapping ('/' -> '_')
+		flat := "flat:" + strings.ReplaceAll(name, "/", "_")
+		if !seen[name] && !seen[flat] {
 			seen[name] = true
+			seen[flat] = true
 			out = append(out, name)
 		}
 	}
